@@ -32,12 +32,12 @@ CHECKS = {
         'whole shell words by an independent quote-state scanner, $name/${..}/~/$(..)/`..`/<(..) forms, redirect = fd + operator + target), evaluated on every '
         'node of every returned tree incl. nested substitutions; contexts in which bashlex is known to misplace spans are part of the violation signature.',
    note=TB + ' RootEnds is the only hypothesis left in C04_total_conditional (the provenance and leaf-text theorems are unconditional). The word clauses of textOK (whole word, cut short, starts late), adjacency of fd and operator, and the span of a here-document redirect are outside the theorem (Unlinked) and are decided per input.'),
- 'C05': dict(level='proof', technique='Lean 4 proof (C05_total_checked: the leaves of every part are exactly the delivered tokens; no hypothesis left, decidable per-input condition rootEndsChecked) + specification predicate evaluated on implementation outcomes; model correspondence',
+ 'C05': dict(level='proof', technique='Lean 4 proof (C05_total_checked: the leaves of every part are exactly the delivered tokens; C05_chars_checked: every character outside the leaves is layout, a look-ahead/time token or a gathered body; no hypotheses, decidable per-input condition rootEndsChecked) + specification predicate evaluated on implementation outcomes; model correspondence',
    text='C05_partial / C05_partial_parts / C05_tokens_in_leaves (Props/C05*.lean, LR/SoundOrdH.lean, 3300 lines): given RootEnds (the token-source hypothesis TokLog is discharged for the real tokenizer: tokLog, Props/C05Total.lean), for every input and all options parse returns one part per parser run, in order, and the leaves of each part (Spec.leaves) are exactly the tokens the run consumed, grouped '
         '([fd] operator target = one redirect leaf, here-document bodies attached as their own leaf or inside the extended redirect): no token is duplicated and the only tokens without a leaf are NEWLINEs in five listed grammar positions, each with a kernel-checked witness; defect D19 is characterised exactly (a d19 group) and excluded by a decidable predicate. '
         'Per input: Spec.coverOK (Lean): the leaf spans of the returned parts are disjoint and every character outside them is layout (blank, newline, comment, line '
         'continuation), evaluated on every accepted input; model correspondence on the same inputs.',
-   note=TB + ' C05_total_checked has no hypothesis (rootEndsChecked is decidable per input, as in C03); the character-level half (text outside leaf spans is layout) and the link to the executable coverOK are not proved and are what the per-input evaluation carries.'),
+   note=TB + ' C05_total_checked has no hypothesis (rootEndsChecked is decidable per input, as in C03); the character level is proved (tokGaps_next for the real tokenizer, C05_chars_checked for the tree) up to two stated residuals: that every gathered here-document body is a leaf of the tree, and the link to the executable coverOK (its qsort); these and the correspondence are what the per-input evaluation carries.'),
  'C12': dict(level='proof', technique='Lean 4 typed AST + schema predicate evaluated on implementation outcomes + model correspondence; LR soundness with value invariants proved',
    text='PROVED for all inputs and all options (C12_partial, C12_partial_single, C12_only_pipelines; 4000 lines, by induction over arbitrary LR runs with a sort-indexed value invariant, an abstract type-checker of the actions decided by the kernel on the regenerated grammar, the real tokenizer\'s type/value consistency sat_nextToken, and induction on nesting depth): every node of every tree the model returns satisfies Spec.schemaOK except two named pipeline shapes. Tie: every returned tree is deserialised by a total function into the typed Lean AST (attribute sets and attribute types are then facts of the type; '
         'anything else is reported ill-typed) and Spec.schemaOK (sequence grammars of list/pipeline, kinds allowed per position, operator/pipe/redirect '
